@@ -25,4 +25,8 @@ for r in rows:
     if os.path.exists(p):
         txt = [l.strip("# *-").strip() for l in open(p).read().split("\n") if l.strip()]
         notes = (txt[0] if txt else "")[:110].replace("|", "/")
+    else:
+        mp = os.path.join(ROOT, "seeded", r["seed"], "meta.json")
+        if os.path.exists(mp):
+            notes = str(json.load(open(mp)).get("needs_to_manifest", ""))[:110].replace("|", "/").replace("\n", " ")
     print(f"| {r['seed']} | {r['prop']} | {notes} | {r['exit']} | {', '.join(r['items'][:3]).replace('_', '.')} | {'no (obligation only)' if r['noinput'] and not r['items'] else 'yes'} |")
